@@ -21,6 +21,8 @@ func Digest(v interface{}) uint64 {
 	return d.h.Sum64()
 }
 
+func fnvNew() hash.Hash64 { return fnv.New64a() }
+
 type visit struct {
 	p unsafe.Pointer
 	t reflect.Type
